@@ -147,7 +147,8 @@ public:
     QString arg(uint a) const { return arg(number(a)); }
     QString arg(long long a) const { return arg(number(a)); }
 };
-#define QStringLiteral(str) QString(u"" str)
+// keeps embedded NULs, as the real macro does (size taken from the literal)
+#define QStringLiteral(str) QString(std::u16string(u"" str, sizeof(u"" str) / sizeof(char16_t) - 1))
 #define QLatin1String(str) QString(u"" str)
 
 struct QCoreApplication {
